@@ -41,6 +41,13 @@ Proof. intros [[] []]; simpl; auto 7. Qed.
 Definition path2 (x : ctx2) : list N :=
   (match fst x with P0 => [] | PE0 => [0xE0] | PE1 => [0xE1] end) ++ (if snd x then [0xF0] else []).
 
+(* a well-formed sequence: optional E0/E1, optional F0, one code byte *)
+(* from the initial context a well-formed sequence yields silence for every prefix byte and then
+   exactly the table's verdict, and leaves the automaton in the initial context - provided the code
+   byte is in code position (E0, E1, F0 directly after nothing are prefixes, not codes) *)
+Definition code_position (p : prefix) (brk : bool) (c : N) : bool :=
+  brk || negb (c =? 0xF0) && (negb (prefix_eqb p P0) || negb ((c =? 0xE0) || (c =? 0xE1))).
+
 (* --- Set 1: context = prefix seen; bit 7 of the code byte means release --- *)
 Definition ctx1 : Type := prefix.
 Definition code1 (p : prefix) (b : N) : sc_result :=
